@@ -124,7 +124,9 @@ CLAIMS = {
         category="proof",
         text="Coq theorems: for each public constructor / call the guard model (mirroring the asserts and raises in source order) rejects "
              "every configuration outside the domain listed by the property and accepts every one inside; every modelled guard is present "
-             "in the current source (translator); conv padding defaults are the number 0. Tied by running the real component on an "
+             "in the current source (translator); conv padding defaults are the number 0; the compiler's OrPooling guard decides exactly the "
+             "domain of max pooling and what it accepts satisfies the generator theorem's well-formedness condition; the compiled forward's "
+             "shape guard decides exactly 'the samples have the declared layout'; GroupSum needs k > 0. Tied by running the real component on an "
              "enumerated catalogue of invalid arguments crossed with valid random configurations and comparing raise-vs-return with the "
              "model evaluated in the kernel.",
         design_ref="DESIGN.md section 6 C19",
@@ -136,7 +138,10 @@ CLAIMS = {
         text="Coq theorems for EVERY scale k >= 1, on layer lists regenerated by symbolic construction of each exported class: conv/pool "
              "output sizes, channel counts, Flatten products, dense in_dim and group-sum divisibility chain from the documented input "
              "shape to (batch, classes) (lia with div/mod equations); all 24 fixed-scale subclasses construct (argument plumbing through "
-             "signature-checking stubs) and chain. Tied by building the real classes at k in {1,2} x {raw, walsh}, comparing per-layer "
+             "signature-checking stubs) and chain. Connection-scheme axis: every convolutional family admits connections='unique' for every "
+             "k >= 1, the dense family exactly between half the input width and the number of input pairs, and ClgnCifar10Mini at no scale "
+             "(theorem C20_unique_scheme_Mini_refuted = known finding F51); the scheme given to a class reaches every logic layer (translator). "
+             "Tied by building the real classes at k in {1,2} x {raw, walsh}, comparing per-layer "
              "shapes from forward hooks with the shape model in the kernel, finite outputs in train/eval, integer*(1/tau) in eval, baselines.",
         design_ref="DESIGN.md section 6 C20",
         note="Coq kernel (closed theorems); translator translate/models.py; large fixed-scale classes are not built for real.",
